@@ -234,3 +234,20 @@ Proof.
       destruct (IH Hin) as (e & ->). cbn [bind]. eauto. }
   destruct H as (e & ->). reflexivity.
 Qed.
+
+(* ------------------------------------------------------------------ DATE_AND_TIME: the two call forms *)
+(* encode(time, date) and encode((time, date)) are the same function of the pair, for EVERY integer
+   time and date (0 included; out-of-range values give the same DataError) *)
+Theorem datetime_call_forms t d :
+  encode_args TDateTime [VInt t; VInt d] = encode TDateTime (VTuple [VInt t; VInt d]).
+Proof. reflexivity. Qed.
+
+Corollary datetime_positional_roundtrip t d rest :
+  in_urange 4 t = true -> in_urange 2 d = true ->
+  exists bs, encode_args TDateTime [VInt t; VInt d] = Ok bs
+             /\ decode TDateTime (bs ++ rest) = Ok (VTuple [VInt t; VInt d], rest).
+Proof.
+  intros Ht Hd. rewrite datetime_call_forms.
+  apply (roundtrip TDateTime (VTuple [VInt t; VInt d]) rest eq_refl); [|discriminate].
+  cbn [in_dom]. now rewrite Ht, Hd.
+Qed.
